@@ -53,24 +53,23 @@ ORIGINS: Dict[int, Tuple[ast.AST, ast.Call]] = {}    # id(site node) -> (functio
 def restoration_sites(py) -> List[Tuple[str, ast.AST, str]]:
     """(target name, node, function qualname) for each `T = ... QUOTES_RE.sub(<uses strings[..]>, ...)`."""
     out = []
-    for mod, fn in py.all_functions():
+    # on the canonical (helper-inlined) program: a restoration helper is part of each function that uses it
+    for mod, fn in py.all_ifunctions():
         if mod != "sourceform":
             continue
         for n in ast.walk(fn):
             if not isinstance(n, ast.Assign):
+                continue
+            if py.enclosing_function(n) is not fn:
                 continue
             for c in py.walk_calls(n.value):
                 if call_name(c) == "QUOTES_RE.sub" and c.args:
                     first = ast.unparse(c.args[0])
                     uses_strings = "strings[" in first
                     if not uses_strings and isinstance(c.args[0], ast.Name):
-                        # `string = NBSP_RE.sub(.., parent.strings[num])` then QUOTES_RE.sub(string, ..)
-                        nm = c.args[0].id
-                        for m in ast.walk(fn):
-                            if isinstance(m, ast.Assign) and any(
-                                    isinstance(t, ast.Name) and t.id == nm for t in m.targets) \
-                                    and "strings[" in ast.unparse(m.value):
-                                uses_strings = True
+                        # `string = NBSP_RE.sub(.., parent.strings[num])` then QUOTES_RE.sub(string, ..): the replacement is
+                        # derived from the literal table through local assignments (also those of an inlined helper)
+                        uses_strings = any("strings[" in ast.unparse(x) for x in astq.expand_locals(c.args[0], fn, depth=6))
                     if uses_strings:
                         t = n.targets[0]
                         name = t.id if isinstance(t, ast.Name) else (t.attr if isinstance(t, ast.Attribute) else ast.unparse(t))
@@ -88,7 +87,7 @@ def restoration_sites(py) -> List[Tuple[str, ast.AST, str]]:
             if not returned or py.enclosing_class(fn) is not None and fn.name.startswith("__"):
                 nxt.append((name, node, q))
                 continue
-            sites = [a for _, f2 in py.all_functions() for a in ast.walk(f2) if isinstance(a, ast.Assign)
+            sites = [a for _, f2 in py.all_ifunctions() for a in ast.walk(f2) if isinstance(a, ast.Assign)
                      and any(isinstance(c, ast.Call) and call_name(c).split(".")[-1] == fn.name for c in ast.walk(a.value))]
             if not sites:
                 nxt.append((name, node, q))
@@ -109,6 +108,23 @@ def restoration_sites(py) -> List[Tuple[str, ast.AST, str]]:
 TABLE_ATTRS = {"attr_dict": "attribs", "param_dict": "initial"}      # per-scope tables and the entity attribute they end up in
 
 
+def forward_aliases(fn: ast.AST, name: str, after: int) -> Set[str]:
+    """names that receive the value of `name` by plain assignment after line `after` (`initial = text`, position-wise
+    through tuple assignments): what an inlined helper hands back to its caller"""
+    names = {name}
+    for _ in range(3):
+        for a in ast.walk(fn):
+            if not isinstance(a, ast.Assign) or getattr(a, "lineno", 0) < after:
+                continue
+            for t in a.targets:
+                pairs = list(zip(t.elts, a.value.elts)) if isinstance(t, ast.Tuple) and isinstance(a.value, ast.Tuple) and \
+                    len(t.elts) == len(a.value.elts) else [(t, a.value)]
+                for tt, vv in pairs:
+                    if isinstance(vv, ast.Name) and vv.id in names and isinstance(tt, ast.Name):
+                        names.add(tt.id)
+    return names
+
+
 def restored_into(py, name: str, node: ast.AST) -> Set[str]:
     """entity attributes that the restored text `name` (assigned at `node`) is stored in, read from the code after `node`:
     `self.<a> = name`, stores into the per-scope tables, constructor arguments (by parameter name, also through a list that
@@ -119,8 +135,10 @@ def restored_into(py, name: str, node: ast.AST) -> Set[str]:
     if isinstance(t, ast.Attribute) and isinstance(t.value, ast.Name) and t.value.id == "self":
         return {t.attr}
 
+    names = forward_aliases(fn, name, node.lineno)
+
     def mentions(e) -> bool:
-        return any(isinstance(x, ast.Name) and x.id == name for x in ast.walk(e))
+        return any(isinstance(x, ast.Name) and x.id in names for x in ast.walk(e))
     lists: Set[str] = set()
     for st in list(ast.walk(fn)) * 2:          # twice: the lists found in the first pass are constructor arguments in the second
         if getattr(st, "lineno", 0) < node.lineno:
@@ -140,7 +158,7 @@ def restored_into(py, name: str, node: ast.AST) -> Set[str]:
             if base in TABLE_ATTRS:
                 out.add(TABLE_ATTRS[base])
             elif isinstance(recv, ast.Name):
-                lists.add(recv.id)
+                lists |= forward_aliases(fn, recv.id, 0)      # the list may be handed over under another name
         if isinstance(st, ast.Call) and isinstance(st.func, ast.Name) and st.func.id in py.classes:
             init = py.resolve_method(st.func.id, "__init__")
             if init is not None:
@@ -248,7 +266,7 @@ def r2_no_transform_after_restore(ctx, rep):
             p = py.parents[p]
             if isinstance(p, ast.While):
                 loop = p
-        tname = name
+        tnames = forward_aliases(fn, name, node.lineno) if isinstance(node.targets[0], ast.Name) else {name}
         bad = []
         for sib in later_reachable(py, loop, fn):
             for st in ast.walk(sib):
@@ -256,7 +274,8 @@ def r2_no_transform_after_restore(ctx, rep):
                     tg = st.targets if isinstance(st, ast.Assign) else [st.target]
                     for t in tg:
                         tn = t.id if isinstance(t, ast.Name) else (t.attr if isinstance(t, ast.Attribute) else None)
-                        if tn == tname and re.search(r"\b%s\b" % re.escape(tname), ast.unparse(st.value)):
+                        if tn in tnames and any(re.search(r"\b%s\b" % re.escape(x), ast.unparse(st.value)) for x in tnames) and \
+                                not (isinstance(st.value, ast.Name) and st.value.id in tnames):      # `initial = text`: the hand-over itself
                             bad.append(st)
         n += 1
         rep.ob(f"restored value `{name}` in {q}", not bad,
@@ -267,7 +286,9 @@ def r2_no_transform_after_restore(ctx, rep):
     # the only transformations of the literal text itself are the two documented ones: look at what reaches the
     # replacement argument of QUOTES_RE.sub at the restoration that feeds `initial` (helpers are followed)
     ltv = py.func("sourceform.line_to_variables")
-    subs = [ORIGINS[id(node)] for name, node, q in restoration_sites(py) if name == "initial" and id(node) in ORIGINS]
+    # the restoration whose result becomes the `initial` argument of the variable constructor (by flow, not by name)
+    subs = [ORIGINS[id(node)] for name, node, q in restoration_sites(py)
+            if id(node) in ORIGINS and q.endswith("line_to_variables") and "initial" in restored_into(py, name, node)]
     if not subs:
         raise AnalysisError("line_to_variables: the QUOTES_RE.sub restoration of `initial` was not found")
     trans: Set[str] = set()
@@ -360,27 +381,35 @@ def r3_heading(ctx, rep):
     m = j.macros.get(("macros.html", "proc_line"))
     if m is None:
         raise AnalysisError("macro proc_line not found")
-    outs = [o for o in j.outputs if o.template == "macros.html" and "proc_line" in o.macros[-1:]]
-    srcs = {o.src: o for o in outs}
+    # the outputs of proc_line as they appear when a page is expanded: `{% set %}` variables of the macro are resolved to what
+    # they stand for, so a hoisted `{% set proctype = proc.proctype %}` reads like the inline expression
+    c09.setup_types(ctx)
+    outs = []
+    for tpl in c09.all_page_templates(ctx):
+        eo, _ = j.expand(tpl)
+        outs += [o for o in eo if o.template == "macros.html" and "proc_line" in o.macros[-1:]]
+    if not outs:
+        raise AnalysisError("no page expands proc_line")
 
-    def has(pattern):
-        return [o for o in outs if re.search(pattern, o.src)]
-    a = has(r"^proc\.args\|join\(', '\)$")
+    def has(suffix_pattern):
+        return [o for o in outs if re.search(suffix_pattern, o.sym)]
+    a = has(r"\.args\|join\(', '\)$")
     rep.ob("proc_line arguments", bool(a), "heading prints proc.args|join(', ') (declaration order)"
            if a else "proc_line no longer prints the argument list from proc.args", "ford/templates/macros.html")
-    r = has(r"^proc\.retvar\.name$")
-    okr = bool(r) and any("proc.name != proc.retvar.name" in sym(c[2]) and c[1] for c in r[0].conds)
+    r = has(r"\.retvar\.name$")
+    okr = bool(r) and any(re.search(r"(\S+)\.name != \1\.retvar\.name", sym(c[2]) if not isinstance(c[0], str) else c[0]) and c[1]
+                          for o in r for c in o.conds)
     rep.ob("proc_line result clause", okr,
            "result(name) printed iff the result name differs from the function name" if okr else
            "result clause missing or not guarded by name != retvar.name", r[0].loc if r else "ford/templates/macros.html")
-    b = has(r"^proc\.bindC")
-    okb = bool(b) and any(sym(c[2]) == "proc.bindC" and c[1] for c in b[0].conds)
+    b = has(r"\.bindC(\||$)")
+    okb = bool(b) and any(re.search(r"\.bindC\)?$", c[0] if isinstance(c[0], str) else sym(c[2])) and c[1] for o in b for c in o.conds)
     rep.ob("proc_line bind clause", okb, "bind(...) printed iff proc.bindC" if okb else
            "bind clause missing or unguarded", b[0].loc if b else "ford/templates/macros.html")
-    t = has(r"^proc\.proctype\|lower$")
+    t = has(r"\.proctype\|lower$")
     rep.ob("proc_line kind keyword", bool(t), "heading prints proc.proctype|lower",
            t[0].loc if t else "ford/templates/macros.html")
-    at = has(r"^proc\.attribs\|join")
+    at = has(r"\.attribs\|join")
     rep.ob("proc_line prefix attributes", bool(at), "heading prints proc.attribs (pure/elemental/...)",
            at[0].loc if at else "ford/templates/macros.html")
     # every page/macro that shows a procedure heading goes through proc_line
@@ -542,7 +571,14 @@ def _returns_unescaped_source(fn: ast.FunctionDef) -> List[ast.AST]:
         if isinstance(e, (ast.ListComp, ast.GeneratorExp, ast.SetComp)):
             ex = set(extra)
             for g in e.generators:
-                if taint(g.iter, ex):
+                rows = g.iter.elts if isinstance(g.iter, (ast.Tuple, ast.List)) else None
+                if rows is not None and isinstance(g.target, ast.Tuple) and all(
+                        isinstance(r, (ast.Tuple, ast.List)) and len(r.elts) == len(g.target.elts) for r in rows):
+                    # a literal table of rows unpacked into several names: each name is as tainted as its column
+                    for i, t in enumerate(g.target.elts):
+                        if isinstance(t, ast.Name) and any(taint(r.elts[i], ex) for r in rows):
+                            ex.add(t.id)
+                elif taint(g.iter, ex):
                     ex |= {n.id for n in ast.walk(g.target) if isinstance(n, ast.Name)}
             return taint(e.elt, ex)
         if isinstance(e, ast.IfExp):
@@ -584,6 +620,7 @@ def r9_html_properties_escape(ctx, rep):
             if fn is None or p not in ci.properties:
                 continue
             n += 1
+            fn = py.ifunc(f"{cname}.{p}")      # canonical form: a local wrapper around the escape call is expanded
             bad = _returns_unescaped_source(fn)
             rep.ob(f"{cname}.{p} escapes the declaration text it embeds", not bad,
                    "kind / length / array specification / attributes pass an escape call before they are joined with the type link"
@@ -672,7 +709,7 @@ def r11_displayed_text_is_unmasked(ctx, rep):
 
     n = 0
     # (a) PARAMETER statement: what is stored in param_dict
-    fn = py.func("FortranContainer.__init__")
+    fn = py.ifunc("FortranContainer.__init__")
     q = py.qualname(fn)
     for st in ast.walk(fn):
         if isinstance(st, ast.Assign) and any(isinstance(t, ast.Subscript) and ast.unparse(t.value) == "self.param_dict" for t in st.targets):
@@ -683,14 +720,15 @@ def r11_displayed_text_is_unmasked(ctx, rep):
                    f"`{ast.unparse(st)[:70]}` stores the masked text: `parameter (s = 'ab,cd')` is documented with the initial value \"0\"",
                    py.nloc(st), nontrivial=not ok)
     # (b) attributes written inline in a declaration
-    lv = py.func("sourceform.line_to_variables")
+    lv = py.ifunc("sourceform.line_to_variables")      # canonical form: the attribute classification may live in a helper
     q = py.qualname(lv)
     for c in py.walk_calls(lv):
         if isinstance(c.func, ast.Attribute) and c.func.attr == "append" and isinstance(c.func.value, ast.Name) and c.args:
             lst = c.func.value.id
-            # is this list handed to the variable constructor?
+            lsts = forward_aliases(lv, lst, 0)
+            # is this list handed to the variable constructor (possibly under another name)?
             used = any(isinstance(k, ast.Call) and call_name(k) == "FortranVariable" and any(
-                isinstance(x, ast.Name) and x.id == lst for a in k.args + [kw.value for kw in k.keywords] for x in ast.walk(a))
+                isinstance(x, ast.Name) and x.id in lsts for a in k.args + [kw.value for kw in k.keywords] for x in ast.walk(a))
                 for k in py.walk_calls(lv))
             if not used:
                 continue
